@@ -10,7 +10,7 @@ import (
 // ---- abstract dictionaries ----
 type aAttr struct {
 	name, oid, typ string
-	flags      []string
+	flags          []string
 }
 type aDecl struct {
 	kind string // attr, value, vendor, begin, end
@@ -295,6 +295,33 @@ func init() {
 			}
 			c.Count("numeral", nm.text)
 		}
+		// what is recorded for an accepted declaration, decided by the statement itself
+		{
+			text := "VENDOR V4 9 format=4,0\nVENDOR V2 10 format=2,1\nVENDOR V1 11 format=1,2\nVENDOR V0 12\n" +
+				"ATTRIBUTE A 7 octets[12] encrypt=2,has_tag\nATTRIBUTE B 8.9 ipaddr\nATTRIBUTE C 300 string concat\nVALUE A on 0x10\nBEGIN-VENDOR V2\nATTRIBUTE D 1 integer\nVALUE D x 5\nEND-VENDOR V2\n"
+			d, err := (&dictionary.Parser{Opener: &memOpener{files: map[string]memEntry{"d": {"d", text}}, limit: 4}}).ParseFile("d")
+			got := ""
+			if err != nil {
+				got = err.Error()
+			} else {
+				for _, v := range d.Vendors {
+					got += fmt.Sprintf("%s %d %d/%d attrs=%d vals=%d;", v.Name, v.Number, v.GetTypeOctets(), v.GetLengthOctets(), len(v.Attributes), len(v.Values))
+				}
+				for _, a := range d.Attributes {
+					got += fmt.Sprintf("%s %v %v size=%v enc=%v tag=%v concat=%v;", a.Name, a.OID, a.Type, a.Size, a.FlagEncrypt, a.FlagHasTag, a.FlagConcat)
+				}
+				for _, v := range d.Values {
+					got += fmt.Sprintf("%s %s %d;", v.Attribute, v.Name, v.Number)
+				}
+			}
+			want := "V4 9 4/0 attrs=0 vals=0;V2 10 2/1 attrs=1 vals=1;V1 11 1/2 attrs=0 vals=0;V0 12 1/1 attrs=0 vals=0;" +
+				"A 7 octets size={12 true} enc={2 true} tag={true true} concat={false false};B 8.9 ipaddr size={0 false} enc={0 false} tag={false false} concat={false false};" +
+				"C 300 string size={0 false} enc={0 false} tag={false false} concat={true true};A on 16;"
+			if got != want {
+				c.Fail("spec", "Parser.ParseFile", "recorded", text, got, want, "the returned Dictionary lists precisely the declared names, numbers, types, flags and vendor formats, declarations inside a vendor block attached to that vendor")
+			}
+			c.Count("recorded", text)
+		}
 		// duplicate names are per scope (top level, or one vendor), decided by the statement itself
 		for _, du := range []struct {
 			text string
@@ -308,10 +335,17 @@ func init() {
 			{"VENDOR V 9\nBEGIN-VENDOR V\nATTRIBUTE A 1 string\nEND-VENDOR V\nATTRIBUTE B 1 string\nATTRIBUTE B 2 string\n", false},
 			{"VENDOR V 9\nVENDOR V 10\n", false},
 			{"VENDOR V 9\nVENDOR W 9\n", false},
+			// vendor blocks: mismatched, nested, unclosed, unopened, unknown
+			{"VENDOR V 9\nVENDOR W 10\nBEGIN-VENDOR V\nEND-VENDOR W\n", false},
+			{"VENDOR V 9\nVENDOR W 10\nBEGIN-VENDOR V\nBEGIN-VENDOR W\nEND-VENDOR W\nEND-VENDOR V\n", false},
+			{"VENDOR V 9\nBEGIN-VENDOR V\nATTRIBUTE A 1 string\n", false},
+			{"VENDOR V 9\nEND-VENDOR V\n", false},
+			{"BEGIN-VENDOR V\nEND-VENDOR V\n", false},
+			{"VENDOR V 9\nBEGIN-VENDOR V\nEND-VENDOR V\nBEGIN-VENDOR V\nATTRIBUTE A 1 string\nEND-VENDOR V\n", true},
 		} {
 			_, err := (&dictionary.Parser{Opener: &memOpener{files: map[string]memEntry{"d": {"d", du.text}}, limit: 4}}).ParseFile("d")
 			if du.ok != (err == nil) {
-				c.Fail("spec", "Parser.ParseFile", "duplicates", du.text, fmt.Sprint(err), map[bool]string{true: "accepted", false: "rejected"}[du.ok], "duplicate attribute names are rejected within a scope (top level or one vendor), and only there; duplicate vendor names or numbers are rejected")
+				c.Fail("spec", "Parser.ParseFile", "duplicates", du.text, fmt.Sprint(err), map[bool]string{true: "accepted", false: "rejected"}[du.ok], "duplicate attribute names are rejected within a scope (top level or one vendor), and only there; duplicate vendor names or numbers and nested/mismatched/unclosed vendor blocks are rejected")
 			}
 			c.Count("duplicates", du.text)
 		}
